@@ -122,7 +122,7 @@ impl MemoryArea {
     /// The end address of the memory region.
     #[must_use]
     pub const fn end_address(&self) -> u64 {
-        self.base_addr + self.length
+        self.base_addr.saturating_add(self.length)
     }
 
     /// The size, in bytes, of the memory region.
